@@ -48,7 +48,7 @@ def cl(z):
 def sym_checks(ctx, name, obj, vl, vt, freq, cj, tol, periodic_tol=None, shapes=True, sdh=False):
     """the relations of the property on one scatterer"""
     rng = ctx.rng
-    shape_list = [((5,), (5,)), ((3, 1), (1, 4)), ((2, 3), (2, 3)), ((), (6,))] if shapes else [((4,), (4,))]
+    shape_list = [((5,), (5,)), ((3, 1), (1, 4)), ((2, 3), (2, 3)), ((), (6,)), ((4, 1), (4, 3))] if shapes else [((4,), (4,)), ((3, 1), (1, 2)), ((2, 1), (2, 2)), ((), (3,))]
     for sa, sb in shape_list:
         a = rng.uniform(-2 * np.pi, 2 * np.pi, size=sa)
         b = rng.uniform(-2 * np.pi, 2 * np.pi, size=sb)
@@ -64,6 +64,15 @@ def sym_checks(ctx, name, obj, vl, vt, freq, cj, tol, periodic_tol=None, shapes=
             ctx.violate(f"{name}: S_LL or S_TT is not symmetric under exchange of incident and scattered angles", cj, {"kind": "symmetry", "scatterer": name})
         if np.abs(vt ** 2 * r["LT"] + vl ** 2 * rt["TL"]).max() > tol * scale * vl ** 2:
             ctx.violate(f"{name}: v_T^2 S_LT(a,b) != -v_L^2 S_TL(b,a)", cj, {"kind": "reciprocity", "scatterer": name})
+        # broadcast semantics: the value at a position is the value of the scalar call with the angles at that position
+        ab, bb = np.broadcast_arrays(a, b)
+        for _ in range(2):
+            pos = tuple(int(rng.integers(0, n)) for n in bshape)
+            r1 = obj(float(ab[pos]), float(bb[pos]), freq)
+            if max(abs(complex(np.asarray(r1[k]).ravel()[0]) - complex(r[k][pos])) for k in KEYS) > tol * scale:
+                ctx.violate(f"{name}: the array call differs from the scalar call at position {pos} of angle shapes {sa} x {sb}", cj,
+                            {"kind": "broadcast", "scatterer": name})
+                break
         ptol = periodic_tol if periodic_tol is not None else tol
         k1, k2 = int(rng.integers(-2, 3)), int(rng.integers(-2, 3))
         rp = obj(a + 2 * np.pi * k1, b + 2 * np.pi * k2, freq)
